@@ -1,7 +1,9 @@
 package main
 
 import (
+	"fmt"
 	sp "github.com/scipipe/scipipe"
+	"os"
 )
 
 func strmap(v interface{}) map[string]string {
@@ -14,6 +16,8 @@ func strmap(v interface{}) map[string]string {
 	return out
 }
 
+var carrierNo int
+
 func init() {
 	// {"op":"tempdir","name":"p","ins":{"x":"a/b"},"params":{"k":"1"},"tags":{"x.g":"1"}} -> {"dir":"..."}
 	handlers["tempdir"] = func(r req) interface{} {
@@ -25,6 +29,38 @@ func init() {
 				return map[string]interface{}{"error": err.Error()}
 			}
 			inIPs[port] = ip
+		}
+		subs, _ := r["subs"].(map[string]interface{})
+		if len(subs) > 0 {
+			// joined in-ports: the task receives a carrier IP (random temp name) whose sub-stream holds the member files
+			carrierNo++
+			wf := sp.NewWorkflowCustomLogFile(fmt.Sprintf("probetd%d", carrierNo), 1, "/dev/null")
+			cmd := "echo"
+			for port := range inIPs {
+				cmd += " {i:" + port + "}"
+			}
+			for port := range subs {
+				cmd += " {i:" + port + "|join: }"
+			}
+			p := wf.NewProc(name, cmd+" > {o:out}")
+			for port, lst := range subs {
+				carrier, err := sp.NewFileIP(fmt.Sprintf("/tmp/_scipipe_tmp.%d%d", os.Getpid(), carrierNo))
+				if err != nil {
+					return map[string]interface{}{"error": err.Error()}
+				}
+				for _, x := range lst.([]interface{}) {
+					ip, err := sp.NewFileIP(fmt.Sprint(x))
+					if err != nil {
+						return map[string]interface{}{"error": err.Error()}
+					}
+					carrier.SubStream.Chan <- ip
+				}
+				close(carrier.SubStream.Chan)
+				inIPs[port] = carrier
+				carrierNo++
+			}
+			t := sp.NewTask(wf, p, p.Name(), p.CommandPattern, inIPs, p.PathFuncs, p.PortInfo, strmap(r["params"]), strmap(r["tags"]), "", nil, 1)
+			return map[string]interface{}{"dir": t.TempDir()}
 		}
 		t := sp.NewTask(nil, nil, name, "", inIPs, nil, map[string]*sp.PortInfo{}, strmap(r["params"]), strmap(r["tags"]), "", nil, 1)
 		return map[string]interface{}{"dir": t.TempDir()}
